@@ -467,6 +467,8 @@ impl<'o, T: Elem> Exec<'o, T> {
             match s {
                 Step::Next => item(d.next()),
                 Step::Back => item(d.next_back()),
+                Step::Nth(k) => item(d.nth(*k)),
+                Step::NthBack(k) => item(d.nth_back(*k)),
                 Step::Len => self.tok(d.len()),
                 Step::Hint => self.hint(d.size_hint()),
                 _ => {}
